@@ -9,9 +9,10 @@ O=/var/tmp/regress; mkdir -p $O
 cd /verif
 ./check all 2>&1 | grep -E "^(VIOLATION|KNOWN-FINDING|C[0-9]+:)" > $O/quick.log
 for p in C01 C02 C03 C04 C05 C06 C07 C08 C09 C10 C11 C12 C13 C14 C15 C16 C17 C18 C19 C20; do ./check $p --tier thorough 2>&1 | grep -E "^(VIOLATION|C[0-9]+:)"; done > $O/thorough.log
+# three lanes on three trees: mutants on /var/tmp/zkmut, benign refactors on /var/tmp/zkmut2, seeded changes on /repo
 (tools/mut.sh "" > $O/mutants.log 2>&1) &
+(ZK_REPO=/var/tmp/zkmut2 tools/run_benign.sh > $O/benign.log 2>&1) &
 tools/replay_seeds.sh > $O/seeds.log 2>&1
-tools/run_benign.sh > $O/benign.log 2>&1
 wait
 echo "quick:    $(grep -c ' 0 violations' $O/quick.log)/20 clean"
 echo "thorough: $(grep -c ' 0 violations' $O/thorough.log)/20 clean"
